@@ -685,7 +685,7 @@ fn run_world(c: &WorldCase) -> CaseResult {
         max_total: 4096,
         max_active: 32,
         handshake_errors: true,
-        ep: EpCfg { max_send_rate: c.server_send_rate.max(1), max_receive_rate: c.server_recv_rate.max(1), max_packet_size: clamp(c.server_packet_size).min(1_000_000), max_receive_alloc: clamp(c.server_alloc), keepalive: true, keepalive_interval_ms: 1000, active_timeout_ms: 20000 },
+        ep: EpCfg { max_send_rate: c.server_send_rate.max(1), max_receive_rate: c.server_recv_rate.max(1), max_packet_size: clamp(c.server_packet_size).min(1_000_000), max_receive_alloc: clamp(c.server_alloc), keepalive: true, keepalive_interval_ms: 1000, active_timeout_ms: 20000, alloc_high: 0, rate_high: 0 },
     };
     let ccfg = EpCfg { max_packet_size: clamp(c.client_packet_size).min(1_000_000), max_receive_alloc: clamp(c.client_alloc), keepalive_interval_ms: 1000, ..EpCfg::default() };
     let mut w = World::new(c.seed, &scfg);
